@@ -267,6 +267,11 @@ class Gen:
                 if rng.random() < k["p_relocated"]:
                     pc = rng.choice([0x0100 - rng.randrange(1, 9), 0x0300, 0x9000, 0x00F0])
                 st = Stmt("segdef", root, name=name, start=starts[i], pc=pc, write=True, bank=None)
+                if pc is not None and rng.random() < k.get("p_pc_const", 0.3):
+                    # the run address is given by a constant that is only defined at the end of the file
+                    st.pc_def = Def(self.unique_name("pcc"), "const", root)
+                    st.pc_def.root_unique = True
+                    st.pc_def.value = pc
                 prog.segments.append(st)
                 body.append(st)
             prog.features.add("segments")
@@ -297,6 +302,9 @@ class Gen:
                 else:
                     body.append(Stmt("seguse", root, name="seg%d" % i, block=None))
                     body.extend(blk)
+        for st in (getattr(prog, "segments", None) or []):
+            if getattr(st, "pc_def", None) is not None:
+                body.append(Stmt("const", root, d=st.pc_def, expr=("num", st.pc, None)))
         prog.files["main.asm"] = body
         for fbody in list(prog.files.values()):
             self._separate(fbody)
@@ -339,6 +347,7 @@ class Gen:
                 nm = self.fresh_name(scope, prefer_shadow=not live and DEAD_DEFS_INVISIBLE)
                 d = Def(nm, "label", scope)
                 d.live = live
+                d.in_if = in_if
                 if depth < k["max_depth"] and rng.random() < 0.4:
                     sc = Scope("named", scope, name=nm)
                     scope.named[nm] = sc
@@ -390,6 +399,13 @@ class Gen:
                 st.then = self.gen_block(scope, depth + 1, self._nstmts(1, 4), in_macro, in_loop, in_import, live and st.taken, True)
                 if rng.random() < 0.6:
                     st.else_ = self.gen_block(scope, depth + 1, self._nstmts(1, 4), in_macro, in_loop, in_import, live and not st.taken, True)
+                out.append(st)
+            elif r < 0.93 and self.prog.has_segments and depth < k["max_depth"] and not in_import and rng.random() < k.get("p_nested_segment", 0.0):
+                # a segment block inside other code (a scope, a loop, a macro body): what it emits goes to that segment,
+                # what follows continues where the enclosing code was
+                seg = rng.choice(self.prog.segments)
+                st = Stmt("seguse", scope, name=seg.name, block=None)
+                st.block = self.gen_block(scope, depth + 1, self._nstmts(1, 4), in_macro, in_loop, in_import, live, in_if)
                 out.append(st)
             elif r < 0.97 and self.macros and not in_macro:
                 m = rng.choice(self.macros)
@@ -608,7 +624,14 @@ class Gen:
 
     def gen_expr(self, kind, site, st):
         rng = self.rng
-        if kind == "cond":
+        if kind == "cond" and rng.random() < self.k.get("p_logic_cond", 0.15):
+            # a condition whose left operand already decides it; the right one still names symbols
+            base = self.gen_expr("cond-simple", site, st)
+            d2 = self.pick_ref(site, ("const", "label"), pred=lambda d: d.live and not getattr(d, "in_if", False) and not any(
+                a.defs.get(d.name) not in (None, d) for a in site.chain() + d.scope.chain()) and not any(m.d.name == d.name for m in self.macros))
+            other = ("bin", rng.choice([">", "<", "!="]), ("ref", d2, None), self.num(rng.randrange(0, 300))) if d2 is not None else self.num(rng.randrange(0, 2))
+            return ("bin", "||" if st.taken else "&&", ("paren", base), ("paren", other))
+        if kind in ("cond", "cond-simple"):
             want = st.taken
             r = rng.random()
             # (not a name that is also defined further out: in an early pass the condition would be evaluated with the outer
